@@ -3198,4 +3198,289 @@ theorem world_check_is_endCheck (sc : Scope) (hname : sc.name = "") (hlast : sc.
   · simp_all
   · split <;> simp_all
 
+/-! ### no call leaves matching state behind — for EVERY expectation list (also with
+    ignoreOtherParameters, ambiguous sets, ill-formed calls) -/
+
+/-- what holds of the expectation list at every point of a call, whatever the expectations are:
+    an expectation that is neither a candidate nor the match carries no matching flags; only a
+    succeeded call has a match; a failed call has reported its failure -/
+structure G (cs : CS) : Prop where
+  dead : ∀ e ∈ cs.es, e.cand = false → e.isMatch = false → e.clean = true
+  nom : cs.call.state ≠ .succeed → ∀ e ∈ cs.es, e.isMatch = false
+  failed : cs.call.state = .failed → cs.fail ≠ none
+
+theorem G_complete {cs : CS} (h : G cs) : G (complete cs) := by
+  unfold complete
+  cases hfind : cs.es.find? isMF with
+  | some e =>
+    obtain ⟨l1, l2, hl, _, _, hmod⟩ := find_decomp hfind
+    simp only [hmod]
+    refine ⟨?_, fun hs => absurd rfl hs, fun hs => by cases hs⟩
+    intro y hy hc hm
+    simp only [List.mem_append, List.mem_cons] at hy
+    rcases hy with hy | rfl | hy
+    · exact h.dead y (by rw [hl]; simp [hy]) hc hm
+    · cases hm
+    · exact h.dead y (by rw [hl]; simp [hy]) hc hm
+  | none =>
+    simp only
+    split
+    · exact ⟨h.dead, h.nom, h.failed⟩
+    · exact h
+
+theorem G_failCall {cs : CS} (msg : String) (h : G cs) (hnom : ∀ e ∈ cs.es, e.isMatch = false) : G (failCall cs msg) := by
+  unfold failCall
+  split
+  · exact h
+  · refine ⟨h.dead, fun _ => hnom, fun _ => ?_⟩
+    simp only
+    cases cs.fail <;> simp
+
+theorem discardE_isMatch (x : Exp) : (discardE x).isMatch = false := by
+  unfold discardE
+  split
+  · rfl
+  · next h =>
+    split
+    · simpa [Exp.reset] using h
+    · simpa using h
+
+theorem clean_reset_with (e : Exp) (b c : Bool) : ({ e.reset with cand := b, isMatch := c } : Exp).clean = true := by
+  simp [Exp.clean, Exp.reset, List.all_map, Function.comp_def]
+
+theorem discardE_dead {x : Exp} (hx : x.cand = false → x.isMatch = false → x.clean = true) :
+    (discardE x).cand = false → (discardE x).clean = true := by
+  unfold discardE
+  split
+  · intro _; simp [Exp.clean, Exp.reset, List.all_map, Function.comp_def]
+  · next hm =>
+    split
+    · intro _; simp [Exp.clean, Exp.reset, List.all_map, Function.comp_def]
+    · intro hc; exact hx hc (by simpa using hm)
+
+theorem G_checkParam {cs : CS} (keep : Exp → Bool) (pass : Exp → Exp) (msg : String)
+    (hpc : ∀ e, (pass e).cand = e.cand) (hpm : ∀ e, (pass e).isMatch = e.isMatch) (h : G cs) :
+    G (checkParam cs keep pass msg) := by
+  unfold checkParam
+  split
+  · exact h
+  · simp only
+    -- the list after discarding and pruning
+    have hprop : ∀ y ∈ (cs.es.map discardE).map (fun e => if e.cand && !keep e then ({ e.reset with cand := false } : Exp) else e),
+        y.isMatch = false ∧ (y.cand = false → y.clean = true) := by
+      intro y hy
+      simp only [List.mem_map] at hy
+      obtain ⟨w, ⟨x, hx, rfl⟩, rfl⟩ := hy
+      have hm := discardE_isMatch x
+      have hd := discardE_dead (h.dead x hx)
+      split
+      · exact ⟨by simpa [Exp.reset] using hm, fun _ => by simp [Exp.clean, Exp.reset, List.all_map, Function.comp_def]⟩
+      · exact ⟨hm, hd⟩
+    split
+    · apply G_complete
+      refine ⟨?_, fun _ => ?_, fun hs => by cases hs⟩
+      · intro y hy hc _
+        simp only [List.mem_map] at hy
+        obtain ⟨z, hz, rfl⟩ := hy
+        obtain ⟨_, h2⟩ := hprop z (List.mem_map.mpr (by simpa using hz))
+        split at hc
+        · next hzc => rw [hpc] at hc; rw [hzc] at hc; cases hc
+        · next hzc => rw [if_neg hzc]; exact h2 hc
+      · intro y hy
+        simp only [List.mem_map] at hy
+        obtain ⟨z, hz, rfl⟩ := hy
+        obtain ⟨h1, _⟩ := hprop z (List.mem_map.mpr (by simpa using hz))
+        split
+        · rw [hpm]; exact h1
+        · exact h1
+    · apply G_failCall
+      · exact ⟨fun y hy hc _ => (hprop y hy).2 hc, fun _ y hy => (hprop y hy).1, fun hs => by cases hs⟩
+      · exact fun y hy => (hprop y hy).1
+
+theorem G_onObject {cs : CS} (o : Nat) (h : G cs) : G (onObject cs o) := by
+  unfold onObject
+  split
+  · exact h
+  · next hst =>
+    simp only
+    have hprop : ∀ y ∈ cs.es.map (fun e => if e.cand && !e.relatesToObject o then ({ e.reset with cand := false } : Exp) else e),
+        (y.cand = false → y.isMatch = false → y.clean = true) ∧ (cs.call.state ≠ .succeed → y.isMatch = false) := by
+      intro y hy
+      simp only [List.mem_map] at hy
+      obtain ⟨x, hx, rfl⟩ := hy
+      split
+      · exact ⟨fun _ _ => by simp [Exp.clean, Exp.reset, List.all_map, Function.comp_def],
+               fun hs => by simpa [Exp.reset] using h.nom hs x hx⟩
+      · exact ⟨h.dead x hx, fun hs => h.nom hs x hx⟩
+    split
+    · next hcond =>
+      apply G_failCall
+      · exact ⟨fun y hy => (hprop y hy).1, fun hs y hy => (hprop y hy).2 hs, fun hs => absurd hs hst⟩
+      · rw [Bool.and_eq_true, Bool.not_eq_true', Bool.not_eq_true'] at hcond
+        exact (anyMatch_false_iff _).mp hcond.1
+    · have hprop2 : ∀ y ∈ (cs.es.map (fun e => if e.cand && !e.relatesToObject o then ({ e.reset with cand := false } : Exp) else e)).map
+            (fun e => if e.cand then ({ e with passedObj := true } : Exp) else e),
+          (y.cand = false → y.isMatch = false → y.clean = true) ∧ (cs.call.state ≠ .succeed → y.isMatch = false) := by
+        intro y hy
+        simp only [List.mem_map] at hy
+        obtain ⟨z, hz, rfl⟩ := hy
+        obtain ⟨h1, h2⟩ := hprop z (List.mem_map.mpr (by simpa using hz))
+        split
+        · next hzc => exact ⟨fun hc => by simp [hzc] at hc, h2⟩
+        · exact ⟨h1, h2⟩
+      have hG2 : G { es := ((cs.es.map (fun e => if e.cand && !e.relatesToObject o then ({ e.reset with cand := false } : Exp) else e)).map (fun e => if e.cand then ({ e with passedObj := true } : Exp) else e)), call := cs.call, fail := cs.fail } :=
+        ⟨fun y hy => (hprop2 y hy).1, fun hs y hy => (hprop2 y hy).2 hs, fun hs => absurd hs hst⟩
+      split
+      · exact hG2
+      · exact G_complete hG2
+
+theorem G_applySeg {cs : CS} (buf : List UInt8) (s : Seg) (h : G cs) : G (applySeg cs buf s) := by
+  cases s with
+  | inp n v => exact G_checkParam _ _ _ (fun _ => rfl) (fun _ => rfl) h
+  | out n =>
+    exact G_checkParam (cs := { cs with call := { cs.call with bufs := cs.call.bufs ++ [(n, buf)] } }) _ _ _
+      (fun _ => rfl) (fun _ => rfl) ⟨h.dead, h.nom, h.failed⟩
+  | obj o => exact G_onObject o h
+
+theorem G_segsFrom (buf : List UInt8) : ∀ (segs : List Seg) (cs : CS), G cs → G (segsFrom cs buf segs)
+  | [], _, h => h
+  | s :: rest, cs, h => by
+    simp only [segsFrom]
+    split
+    · exact h
+    · exact G_segsFrom buf rest _ (G_applySeg buf s h)
+
+theorem G_withName {es : List Exp} (k : Nat) (n : String) (hclean : Clean es) :
+    G (withName { es := beginCall es, call := newCall k, fail := none } n) := by
+  have hprop : ∀ y ∈ (beginCall es).map (fun e => ({ e with cand := e.cand && e.name == n } : Exp)),
+      y.isMatch = false ∧ y.clean = true := by
+    intro y hy
+    simp only [beginCall, List.map_map, List.mem_map] at hy
+    obtain ⟨e, he, rfl⟩ := hy
+    refine ⟨rfl, ?_⟩
+    have := hclean e he
+    simpa [Exp.clean] using this
+  unfold withName
+  simp only
+  split
+  · apply G_complete
+    exact ⟨fun y hy _ _ => (hprop y hy).2, fun _ y hy => (hprop y hy).1, fun hs => by cases hs⟩
+  · apply G_failCall
+    · exact ⟨fun y hy _ _ => (hprop y hy).2, fun _ y hy => (hprop y hy).1, fun hs => by cases hs⟩
+    · exact fun y hy => (hprop y hy).1
+
+/-- the general form of the checked flag along a call -/
+theorem checkParam_checked (cs : CS) (keep : Exp → Bool) (pass : Exp → Exp) (msg : String) :
+    (checkParam cs keep pass msg).call.checked = cs.call.checked := by
+  unfold checkParam
+  split
+  · rfl
+  · simp only
+    split
+    · exact (complete_meta _).1
+    · exact (failCall_meta _ _).1
+
+theorem onObject_checked (cs : CS) (o : Nat) : (onObject cs o).call.checked = cs.call.checked := by
+  unfold onObject
+  split
+  · rfl
+  · simp only
+    split
+    · exact (failCall_meta _ _).1
+    · split
+      · rfl
+      · exact (complete_meta _).1
+
+theorem applySeg_checked (cs : CS) (buf : List UInt8) (s : Seg) : (applySeg cs buf s).call.checked = cs.call.checked := by
+  cases s with
+  | inp n v => exact checkParam_checked _ _ _ _
+  | out n => exact checkParam_checked _ _ _ _
+  | obj o => exact onObject_checked _ _
+
+theorem segsFrom_checked (buf : List UInt8) : ∀ (segs : List Seg) (cs : CS), (segsFrom cs buf segs).call.checked = cs.call.checked
+  | [], _ => rfl
+  | s :: rest, cs => by
+    simp only [segsFrom]
+    split
+    · rfl
+    · rw [segsFrom_checked buf rest, applySeg_checked]
+
+theorem withName_checked (cs : CS) (n : String) : (withName cs n).call.checked = cs.call.checked := by
+  unfold withName
+  simp only
+  split
+  · exact (complete_meta _).1
+  · exact (failCall_meta _ _).1
+
+theorem failCall_ne_none_of_state (cs : CS) (msg : String) (hs : cs.call.state ≠ .failed) : (failCall cs msg).fail ≠ none := by
+  unfold failCall
+  rw [if_neg hs]
+  simp only
+  cases cs.fail <;> simp
+
+/-- finishing a call that reports no failure leaves every expectation clean -/
+theorem callCheck_clean {cs : CS} (h : G cs) (hchk : cs.call.checked = false) (hf : (callCheck cs).fail = none) :
+    Clean (callCheck cs).es := by
+  unfold callCheck at hf ⊢
+  rw [if_neg (by rw [hchk]; simp)] at hf ⊢
+  simp only at hf ⊢
+  cases hst : cs.call.state with
+  | succeed =>
+    simp only [hst]
+    intro y hy
+    simp only [resetCands, List.map_map, List.mem_map] at hy
+    obtain ⟨x, hx, rfl⟩ := hy
+    simp only [Function.comp]
+    cases hm : x.isMatch with
+    | true =>
+      simp only [if_true]
+      split
+      · exact reset_clean _
+      · exact clean_callWasMade x _
+    | false =>
+      simp only [Bool.false_eq_true, if_false]
+      split
+      · exact reset_clean _
+      · next hc => exact h.dead x hx (by simpa using hc) hm
+  | failed =>
+    exfalso
+    simp only [hst] at hf
+    exact h.failed hst hf
+  | inProgress =>
+    simp only [hst] at hf ⊢
+    have hnom := h.nom (by rw [hst]; simp)
+    unfold finishInProgress at hf ⊢
+    simp only at hf ⊢
+    split at hf
+    · exfalso
+      exact failCall_ne_none_of_state _ _ (by simp) hf
+    · next hany =>
+      rw [if_neg hany]
+      split at hf
+      · next e he =>
+        simp only [he]
+        intro y hy
+        simp only [resetCands, List.mem_map] at hy
+        obtain ⟨z, hz, rfl⟩ := hy
+        rcases mem_modifyFirst hz with hz | ⟨x, _, rfl⟩
+        · split
+          · exact reset_clean _
+          · next hc => exact h.dead z hz (by simpa using hc) (hnom z hz)
+        · split
+          · exact reset_clean _
+          · exact clean_callWasMade _ _
+      · next hnone =>
+        exfalso
+        split at hf <;> exact failCall_ne_none_of_state _ _ (by simp) hf
+
+/-- **no stale matching state, in every class**: a call that reports no failure leaves all
+    matching flags clean, whatever the expectations (ignoreOtherParameters, ambiguous sets) and
+    whatever the call's steps -/
+theorem callFull_clean (es : List Exp) (k : Nat) (n : String) (segs : List Seg) (buf : List UInt8)
+    (hclean : Clean es) (hf : (callFull es k n segs buf).fail = none) : Clean (callFull es k n segs buf).es := by
+  unfold callFull at hf ⊢
+  apply callCheck_clean (G_segsFrom buf segs _ (G_withName k n hclean)) _ hf
+  rw [segsFrom_checked, withName_checked]
+  rfl
+
 end Mock
